@@ -658,6 +658,17 @@ func eqCond(l, r string) string {
 	if l == r && (l == "nil" || isNumeric(l)) {
 		return "true"
 	}
+	// a length is never negative: len(x) == 0 is the negation of 0 < len(x) (one spelling for both)
+	if r == "0" && strings.HasPrefix(l, "len(") && strings.HasSuffix(l, ")") && strings.Count(l, "(") == strings.Count(l, ")") && !strings.ContainsAny(l[4:len(l)-1], "+-*/ ") {
+		return negCond("0<" + l)
+	}
+	if l == "0" && strings.HasPrefix(r, "len(") && strings.HasSuffix(r, ")") && strings.Count(r, "(") == strings.Count(r, ")") && !strings.ContainsAny(r[4:len(r)-1], "+-*/ ") {
+		return negCond("0<" + r)
+	}
+	// an object this activation allocated is not nil
+	if r == "nil" && isLocalObj(l) && !strings.Contains(l, ".") || l == "nil" && isLocalObj(r) && !strings.Contains(r, ".") {
+		return "false"
+	}
 	if l == "nil" || isNumeric(l) && !isNumeric(r) {
 		l, r = r, l
 	} else if !isNumeric(r) && r != "nil" && r < l {
